@@ -111,6 +111,7 @@ class Template:
         self.objs = {}
         self.lists = {}
         self.submodules = []        # (name IR or None, value IR, gen frames, lineno)
+        self.rehomed_defaults = []  # (switch id, number of drivers, lineno): Default arms read as assignments before the Switch
         self.zipped_loops = []      # (loop id, sequences, lineno): loops over zip(A, B, ...) read as position-wise (equal lengths assumed)
         self.connects = []          # (a IR, b IR, gen frames, lineno)
         self.calls = []             # other call statements: (IR, gen frames, dsl frames, lineno)
@@ -205,6 +206,7 @@ class Walker:
         self.order_prefix = ()      # tuple of ints / OrderCells
         self.chain = {}             # dsl depth -> list of prior conds of the open If chain (or None)
         self.switch_stack = []
+        self._case_frames = {}
         self.nid = 0
         self.seqno = 0
         self.inline_depth = inline_depth
@@ -1252,8 +1254,48 @@ class Walker:
             cell = OrderCell()
             frame = ('switch', sid, args[0])
             self.switch_stack.append(sid)
+            n_before = len(self.t.drivers)
             self.enter(frame, cell, st.body)
             self.switch_stack.pop()
+            # A Default arm that only assigns signals which *every* Case arm assigns as well shows its values exactly when no Case
+            # matches -- which is what the same assignments written before the Switch do (a matching Case overrides them).  Such
+            # drivers are re-homed in front of the Switch, so that both spellings have one decision list.
+            mine = self.t.drivers[n_before:]
+            dflt = [d_ for d_ in mine if d_.dsl == here + (('default', sid),)]
+            case_frames = self._case_frames.get(sid, [])
+            if dflt and case_frames and not any(d_.dsl[:len(here) + 1] == here + (('default', sid),) and len(d_.dsl) > len(here) + 1 for d_ in mine):
+                def tkey(x):
+                    try:
+                        return ir.show(ir.norm(x.target))
+                    except Exception:
+                        return ir.show(x.target)
+                ok_targets = set()
+                gen0 = self.gen                             # generation context of the Switch statement itself
+                inner_loops = {fr[1] for d_ in mine for fr in d_.gen[len(gen0):] if fr[0] == 'for'}
+
+                def every_arm(c_):
+                    # a Case written inside a generation loop stands for one arm per iteration: "every arm assigns T" then needs
+                    # the assignment in every iteration (no generation-time condition) and T to be the same signal in all of them
+                    extra = c_.gen[len(gen0):] if c_.gen[:len(gen0)] == gen0 else None
+                    return extra is not None and all(fr[0] == 'for' for fr in extra)
+                for tk in {tkey(d_) for d_ in dflt}:
+                    dd0 = next(dd for dd in dflt if tkey(dd) == tk)
+                    try:
+                        tn = ir.norm(dd0.target)
+                    except Exception:
+                        continue
+                    if any(x[0] in ('idx', 'item') and x[1] in inner_loops for x in ir.walk(tn)) or dd0.gen != gen0:
+                        continue
+                    if all(any(c_.dsl == here + (cf,) and c_.domain == dd.domain and tkey(c_) == tk and every_arm(c_) for c_ in mine)
+                           for cf in case_frames for dd in dflt if tkey(dd) == tk):
+                        ok_targets.add(tk)
+                moved = [d_ for d_ in dflt if tkey(d_) in ok_targets]
+                if moved and len(moved) == len(dflt):
+                    self.counters[-1] += 1
+                    for d_ in moved:
+                        d_.dsl = here
+                        d_.order = self.order_prefix + (self.counters[-1],)
+                    self.t.rehomed_defaults.append((sid, len(moved), st.lineno))
             # the Switch statement is appended when the block exits
             self.counters[-1] += 1
             cell.v = self.counters[-1]
@@ -1266,6 +1308,7 @@ class Walker:
             if kind == "Case":
                 frame = ('case', sw[1], tuple(args), st.lineno)
                 self.t.switch_cases.setdefault(sw[1], []).append(tuple(args))
+                self._case_frames.setdefault(sw[1], []).append(frame)
             else:
                 frame = ('default', sw[1])
             # replace the 'switch' frame by the case frame for the body
